@@ -589,10 +589,20 @@ class Interp:
                         body_loads_shared_dict = (n, o)
                         break
         if body_loads_shared_dict is not None:
-            # hit and miss yield the same abstract value: after the handler stored it, the value
-            # is shared with all later calls.  Run the handler (loader), then the body (hit).
             n, o = body_loads_shared_dict
             self.events.append(("cache-idiom", o.origin[1], pyfacts.where(fr.func, st)))
+            if self.can_fork():
+                # a lookup in a cache forks into MISS (explored first: the KeyError handler runs instead of
+                # the body; whatever the path stores into the cache becomes the model of its contents) and
+                # HIT (the body runs, the load is materialised from that model with origin `shared`)
+                if self.decide(("cache-miss", o.origin[1])):
+                    self.exec_block(keyerr[0].body, fr)
+                else:
+                    self.exec_block(st.body, fr)
+                    self.exec_block(st.orelse, fr)
+                self.exec_block(st.finalbody, fr)
+                return
+            # inside a loop: hit and miss yield the same abstract value once the handler has stored it
             self.exec_block(keyerr[0].body, fr)
             self.exec_block(st.body, fr)
             self.exec_block(st.orelse, fr)
@@ -1161,6 +1171,14 @@ class Interp:
                 res.meta["identity_conv_of"] = (so.meta.get("identity_conv_of") or self.sym_of(src)) if so is not None else (src if isinstance(src, Sym) and src.tag == "param" else None)
             elif any(g.ifs for g in e.generators):
                 res.meta["filtered"] = pyfacts.where(fr.func, e)
+            # [fn(x) for x in text.split(sep)]: element i is fn(field i)
+            if len(e.generators) == 1 and not e.generators[0].ifs and isinstance(e.generators[0].target, ast.Name) and \
+                    isinstance(e.elt, ast.Call) and isinstance(e.elt.func, ast.Name) and len(e.elt.args) == 1 and not e.elt.keywords and \
+                    isinstance(e.elt.args[0], ast.Name) and e.elt.args[0].id == e.generators[0].target.id and e.elt.func.id in ("int", "str", "float"):
+                so = self.obj(self.eval(e.generators[0].iter, sub))
+                if so is not None and "split" in so.meta:
+                    recv, sargs = so.meta["split"]
+                    res.meta["mapsplit"] = Sym("mapsplit", Const(e.elt.func.id), recv, *sargs, prov=recv.prov)
         finally:
             self.loop_depth -= 1
             self.maybe = saved
@@ -1246,7 +1264,7 @@ def _is_desc(x):
 
 def _sym_from_key(k):
     if not isinstance(k, tuple) or not k:
-        return Const(k) if isinstance(k, (int, str, float, bool, type(None))) else Sym("opaque", Const(repr(k)))
+        return k      # raw atoms (parameter / attribute names, tags) are kept as they are inside Sym arguments
     if k[0] == "const":
         return Const(k[2])
     if not isinstance(k[0], str):
@@ -1306,6 +1324,9 @@ def default_args(interp, func):
     params = a.posonlyargs + a.args
     defaults = [None] * (len(params) - len(a.defaults)) + list(a.defaults)
     for arg, dflt in zip(params, defaults):
+        if func.cls is not None and func.is_classmethod and arg is params[0]:
+            out.append(ClassV(func.cls))
+            continue
         if func.cls is not None and not func.is_static and arg is params[0]:
             o = interp.alloc("record", ("param", arg.arg), cls=func.cls)
             out.append(Ref(o.oid))
